@@ -4,6 +4,7 @@ ENTRY = dict(
         prop_modules=["C19", "TieTypes", "TieTypesB", "TieTypesC", "TieTypesD"],
         title="Primitive wire types pack, unpack and size consistently for every value",
         design_ref="DESIGN.md section 6 / C19",
+        prop_modules=["C19", "C19Sweep"],
         technique="Lean 4 theorems over all values / all trailing bytes (codec model of data_types.py) + translator table of the struct formats + correspondence with to_bytes/from_bytes/value/size and with the regulator-data consumer on a real EcoMAX device",
         level_text=(
             "Proof: `C19.int_lawful`, `float_lawful`, `double_lawful`, `ipv4_lawful`, `ipv6_lawful`, `string_lawful`, `var_lawful` show for "
@@ -11,13 +12,15 @@ ENTRY = dict(
             "unpacking from the longer buffer returns the value and consumes exactly that many bytes (`Lawful`, Spec/C19.lean); "
             "`le_roundtrip`/`twos_roundtrip`/`int_ranges` give the arithmetic for the eight integer types, `fields_in_sequence` the positioning of a "
             "following field, `bit_value`/`bit_run_values`/`bit_run` the bit-array cursor protocol (DESIGN interpretation), "
+            "`int_buffer_is_packed` / `int_pack_injective` / `bits_buffer_is_packed` / `addr_buffer_is_packed` (Props/C19Sweep.lean) the converse: EVERY buffer of at least size bytes "
+            "unpacks to a representable value whose packed form is its first size bytes, so pack and unpack are mutually inverse bijections; "
             "`struct_formats_table` re-proves the struct formats read from today's source. The data type INSTANCE is in the model (value slot, size slot, "
             "bit position; construct / pack / unpack / size / value / next): `pack_reflects_last_value`, `size_is_packed_length`, `value_is_last_set`, "
             "`unpack_then_pack`, `observers_inert` hold for ALL operation sequences of canonical operations on one re-used instance (`good_step`/`good_run` "
             "invariant, `*_inst_lawful` per class); `var_truncated_witness` records the one non-canonical case where VarBytes/VarString pack a stale length "
             "prefix; `bit_position_unpack_commute`, `bit_inst_reports`, `bit_constructed_position` make position and content of a bit field independent. The model is tied to data_types.py by running both on "
             "boundary and random values of every type at random offsets with trailing bytes, non-ASCII strings, arbitrary buffers, all 256x8 bit "
-            "fields, and random field sequences decoded by RegulatorDataStructure."),
+            "fields, complete sweeps of the 8/16-bit integer classes (every byte pattern, every value) and of the bit field in both orders, and random field sequences decoded by RegulatorDataStructure."),
         level_note="Trusted: Lean kernel; struct float<->bits conversion, UTF-8 encode/decode and inet_* text forms are CPython's (round-tripped in the harness, not modelled). "
                    "CODE TIE (round 8): tools/py2lean_types.py translates the source text of every class of data_types.py (per concrete class: __init__, construction, from_bytes, "
                    "to_bytes, pack, unpack, value, size, __eq__, BitArray.next; DATA_TYPES) to Generated/PyCodeTypes.lean on every run; Props/TieTypes.lean proves for the eight integer "
@@ -30,7 +33,8 @@ ENTRY = dict(
             "unpack(pack v) = v, every representable value (ints, float/double bit patterns, IPv4/IPv6 tuples, strings/bytes as byte lists)": "theorem",
             "reported size = number of packed bytes (sizing in bytes, non-ASCII included)": "theorem",
             "unpacking from a longer buffer consumes exactly size bytes; the following field is positioned by it": "theorem",
-            "an arbitrary buffer of at least size bytes IS the packed form of one integer / address followed by arbitrary bytes: unpacking returns that value and size": "correspondence (judged against the wire layout, cross-checked with the model)",
+            "an arbitrary buffer of at least size bytes IS the packed form of one integer / float pattern / address followed by arbitrary bytes: unpacking returns that representable value and size, packing it gives back the buffer (pack / unpack are mutually inverse bijections)": "theorem (C19Sweep: int_buffer_is_packed, int_pack_injective, int_unpack_none_iff, bits_buffer_is_packed, addr_buffer_is_packed) + correspondence (judged against the wire layout)",
+            "complete sweeps: all 256 / 65536 byte patterns and all representable values of SignedChar, UnsignedChar, Short, UnsignedShort, all 256 x 8 bit fields, each with trailing bytes / offsets": "theorem for all values and buffers (int_lawful, int_buffer_is_packed, bit_value, bit_value_injective) + correspondence, enumerated completely in both tiers",
             "bit array: value = bit index of the shared byte; a run of k bit fields advances ceil(k/8) bytes (interpretation of DESIGN section 6)": "theorem",
             "re-used instance: to_bytes = pack of the value constructed / unpacked last, size = its length, for every operation sequence": "theorem (canonical operations: representable values, buffers that start with a packed form)",
             "struct formats / sizes of the ten struct-backed classes": "table",
